@@ -5,6 +5,8 @@ under /verif/seeded/<Cxx-N>/ ."""
 import sys, os, subprocess, json, re, shutil
 sid = sys.argv[1]
 src = f'/tmp/mutout/{sid}'
+if not os.path.isdir(src):
+    src = f'/verif/seeded/{sid}'
 prop = sid.split('-')[0]
 meta = json.load(open(f'{src}/meta.json'))
 demo = open(f'{src}/demo_test.go').read()
@@ -82,6 +84,12 @@ for pr in detected:
             rules.append(mm.group(1))
 meta['detected_by'] = rules if detected and prop in detected else []
 meta['detected_by_other_property'] = [pr for pr in detected if pr != prop]
+try:
+    old = json.load(open(f'{dst}/meta.json'))
+    if 'checker_note' in old:
+        meta['checker_note'] = old['checker_note']
+except Exception:
+    pass
 json.dump(meta, open(f'{dst}/meta.json', 'w'), indent=1)
 ok = res.get('applies') and res.get('demo_passes_without') and res.get('demo_fails_with') and res.get('existing_tests_pass')
 print(sid, 'VALID' if ok else 'INVALID', 'detected_by=', meta['detected_by'], meta['detected_by_other_property'], '| dir', ddir)
